@@ -11,8 +11,8 @@ from harness import fw
 META = {
     "id": "C17",
     "technique": "Coq proof (host LCD model vs firmware LCD model over the mock's DDRAM: refinement by induction on the text, progress-bar arithmetic, backlight/glyph invariants over all histories) + extracted-model correspondence with the real LCD class and with the real transpiled firmware run under the mock core + property oracle firmware-vs-host",
-    "level_text": "Theorems C17_* (coq/Props/C17.v) are proved for all ASCII texts, alignments, clear flags, in-range rows/columns, all histories of guarded calls and all geometries that fit one HD44780 about Gallina models of Displays/LCD.py and of the emitted LCD C++ (helper templates + per-node code, texts as UTF-8 bytes) on the mock LiquidCrystal DDRAM: per-call and per-history refinement (cells, backlight level, glyph table; message with any top/bottom on any display, progress with any value/max_value/width), never-off-row for every call kind on both sides, the four progress-bar laws for every max_value and width argument, the backlight pin invariant over every firmware history, glyph rows; two refutations with witnesses (geometries that alias rows, non-ASCII text) replayed on the real code; three repaired defects (one-row message, progress width <= 0 / max_value <= 0: kind=fixed, their former refutations are now the positive theorems C17_message_one_row, C17_progress_same_bar, C17_progress_bar_within_one, their witnesses are replayed on every run and reported as VIOLATION if they fail again); the style/alignment tables of host, parser and emitter are regenerated from the source (Gen/LcdTables.v) and proved to agree. Both models are run against the real LCD object and the real parse+emit output compiled with g++ on generated op sequences (geometry sweep 1..40 x 1..4, both wirings), and the property relation is evaluated directly firmware-vs-host.",
-    "level_note": "Trusted: Coq kernel, extraction, OCaml driver, mock Arduino core + mock LiquidCrystal/LiquidCrystal_I2C as the definition of 'device', g++, CPython. The theorems are about the models; the correspondence bounds their distance from LCD.py / emitter.py / parser.py. Text inside the guard is ASCII; binary64 noise at exact .5 ties of the progress ratio is outside the model.",
+    "level_text": "Theorems C17_* (coq/Props/C17.v) are proved for all ASCII texts, alignments, clear flags, in-range rows/columns, all histories of guarded calls and all geometries that fit one HD44780 about Gallina models of Displays/LCD.py and of the emitted LCD C++ (helper templates + per-node code, texts as UTF-8 bytes) on the mock LiquidCrystal DDRAM: per-call and per-history refinement (cells, backlight level, glyph table; message with any top/bottom on any display, progress with any value/max_value/width), never-off-row for every call kind on both sides, the four progress-bar laws for every max_value and width argument - both for the exact-rational rounding and for the binary64 arithmetic CPython really executes (Host/LCDFloat.v: fl53 = nearest binary64 number with its 2^-53 relative error bound proved, hfilled_fl; C17_progress_float_exact / _within_one / _saturates for every value and max_value and every bar width 1..40, _monotone_partial and _faithful_partial (equal to the exact rounding off the .5 ties) for max_value < 2^45, C17_progress_refines_float for whole calls) -, the backlight pin invariant over every firmware history, glyph rows; two refutations with witnesses (geometries that alias rows, non-ASCII text) replayed on the real code; three repaired defects (one-row message, progress width <= 0 / max_value <= 0: kind=fixed, their former refutations are now the positive theorems C17_message_one_row, C17_progress_same_bar, C17_progress_bar_within_one, their witnesses are replayed on every run and reported as VIOLATION if they fail again); the style/alignment tables of host, parser and emitter are regenerated from the source (Gen/LcdTables.v) and proved to agree. Both models are run against the real LCD object and the real parse+emit output compiled with g++ on generated op sequences (geometry sweep 1..40 x 1..4, both wirings), and the property relation is evaluated directly firmware-vs-host.",
+    "level_note": "Trusted: Coq kernel, extraction, OCaml driver, mock Arduino core + mock LiquidCrystal/LiquidCrystal_I2C as the definition of 'device', g++, CPython. The theorems are about the models; the correspondence bounds their distance from LCD.py / emitter.py / parser.py. Text inside the guard is ASCII; the binary64 model has an unbounded exponent and exact int->float conversion, i.e. it is IEEE-754 for |value|, max_value < 2^53 (measured against CPython's float division and against LCD.progress on the grid).",
     "design_ref": "DESIGN.md section 4 C17",
 }
 
@@ -1259,14 +1259,14 @@ def run(ctx: C.Ctx):
     ctx.coverage.update({
         "evaluations": n_ops,
         "distinct_nontrivial": len(nontrivial),
-        "rule": "sweep: for every geometry that fits one HD44780 (cols 1..40 x rows 1..4 with rows<=2 or cols<=20; all of them in the thorough tier, a boundary sample in quick) and both wirings, single write/line/message/clear calls at columns 0, cols//2, cols-1 with text length classes empty/shorter/equal/longer, all alignments and clear flags, executed back to back on one display; seq: seeded random sequences of <= 8 guarded ops (message bottoms also on one-row displays, progress also with width <= 0 / > cols and max_value <= 0), one op per loop() pass so the mock dumps the matrix after every op; scan: progress with value = -2..max+2 at fixed max/width (max also 0, -1, -10; width also 0, -3, cols+2); bl: histories of 36 (quick) / 60 (thorough) display/backlight/brightness calls (plus glyph and line calls) on the three wirings (parallel with backlight pin, I2C backpack, parallel without pin); wild: out-of-range arguments and oversized geometries (correspondence only). ~30% of the calls pass row/col/value/max/width/level/slot/flags as run-time values (analog_read). distinct non-trivial = distinct (geometry, wiring, call) pairs evaluated by the firmware-vs-host oracle.",
+        "rule": "sweep: for every geometry that fits one HD44780 (cols 1..40 x rows 1..4 with rows<=2 or cols<=20; all of them in the thorough tier, a boundary sample in quick) and both wirings, single write/line/message/clear calls at columns 0, cols//2, cols-1 with text length classes empty/shorter/equal/longer, all alignments and clear flags, executed back to back on one display; seq: seeded random sequences of <= 8 guarded ops (message bottoms also on one-row displays, progress also with width <= 0 / > cols and max_value <= 0), one op per loop() pass so the mock dumps the matrix after every op; scan: progress with value = -2..max+2 at fixed max/width (max also 0, -1, -10; width also 0, -3, cols+2); bl: histories of 36 (quick) / 60 (thorough) display/backlight/brightness calls (plus glyph and line calls) on the three wirings (parallel with backlight pin, I2C backpack, parallel without pin); grid (firmware): for every bar width w = 1..40 one display (the width arising as cols, as width=w on a wider display, as an over-wide width=, or next to a label) with progress(j*f, w*f) for every filled length j = 0..w, run on the real firmware and the real host; grid (host): the real LCD class on every bar width 1..40 x every max_value 1..128 (quick) / 1..320 (thorough) plus 255, 256, 1000, 1023, 1024, 4095, 9999, 32767 and 0, -1, -7 x every value -1..max+1, and every fraction j/w in eight spellings - saturation and monotonicity evaluated directly, exactness and the one-cell tolerance against value*width/max_value in integers; every suspicious call is then run alone on the real firmware and reported only if firmware and host really differ (the replay is that single call); the binary64 model hfilled_fl is compared with what the class drew on every exact multiple of the grid and 1% of the rest; wild: out-of-range arguments and oversized geometries (correspondence only). ~30% of the calls pass row/col/value/max/width/level/slot/flags as run-time values (analog_read). distinct non-trivial = distinct (geometry, wiring, call) pairs evaluated by the firmware-vs-host oracle.",
         "samples": [{"geom": c["geom"], "ops": c["ops"][:2]} for c in (cases[0], cases[len(cases) // 2], cases[-1])],
         "distribution": dict(dist, sketches=len(builders), cases=len(cases), host_model_calls=n_corr_h, device_model_calls=n_corr_d,
                              oracle_calls=n_oracle, run_time_arg_calls=sum(sum(c["rts"]) for c in cases)),
         "exhaustive": False,
         "guard": "geometry fits one HD44780 (rows <= 2 or cols <= 20); row/col in range; ASCII text (F-C17-non-ascii); message with any top/bottom on any display and progress with any max_value (also <= 0) and any width (also <= 0, > cols) are inside the guard since the repair of F-C17-message-one-row / F-C17-progress-width / F-C17-progress-max; brightness 0..255 on a parallel LCD with backlight pin; glyph slot 0..7 with 8 rows (outside: F-C17-* findings / calls the property does not quantify over)",
         "unmodelled": ["which glyph the HD44780 character ROM shows for a byte >= 128 (cells are compared as byte values; U+2588 / 0xFF identified)",
-                       "binary64 rounding of ratio*width at exact .5 ties of the progress bar (the model rounds the exact rational; such calls are excluded from the host correspondence, not from the oracle)",
+                       "progress with |value| or max_value >= 2^53 (float() of the int rounds / overflows) and binary64 overflow or subnormals: fl53 has an unbounded exponent",
                        "float/str()-converted arguments (text given as numbers, float rows/values)", "C int overflow (16-bit AVR)",
                        "LCD.animate/tick (property C18)", "display on/off has no effect on the cell matrix in the mock"],
         "trusted_base": C.COMMON_TRUSTED + ["mock/LiquidCrystal.h, mock/LiquidCrystal_I2C.h, mock/mock_core.cpp (DDRAM, row offsets, row clamp of both libraries) as the definition of 'device'",
